@@ -665,13 +665,35 @@ func c15Next(c *Ctx) {
 		c.Anchor("O15.5", "lib/mp.(*NextIterator).Next / Rand / calcIndex")
 		return
 	}
-	isMu := func(v ssa.Value) bool {
+	muField := func(v ssa.Value) *types.Var {
 		fv, _ := FieldOf(v)
 		if fa, ok := v.(*ssa.FieldAddr); ok && fv == nil {
 			fv, _ = FieldOf(fa)
 		}
-		return fv != nil && fv.Name() == "mx"
+		if fv == nil {
+			return nil
+		}
+		if p, n := NamedOf(fv.Type()); p == "sync" && (n == "Mutex" || n == "RWMutex") {
+			return fv
+		}
+		return nil
 	}
+	// any mutex of the iterator; which one guards which object is decided by consistency below (one mutex may
+	// guard the counters and another the random source)
+	isMu := func(v ssa.Value) bool { return muField(v) != nil }
+	var muFields []*types.Var
+	if tn, ok := P.Pkg("lib/mp").Types.Scope().Lookup("NextIterator").(*types.TypeName); ok {
+		if st, ok := tn.Type().Underlying().(*types.Struct); ok {
+			for i := 0; i < st.NumFields(); i++ {
+				if p, n := NamedOf(st.Field(i).Type()); p == "sync" && (n == "Mutex" || n == "RWMutex") {
+					muFields = append(muFields, st.Field(i))
+				}
+			}
+		}
+	}
+	c.Floor("O15.5", "mutex fields of NextIterator", len(muFields), 1)
+	guardsOf := map[string]map[*types.Var]int{} // object (gs / rnd) -> mutex -> accesses made under it
+	accOf := map[string]int{}
 	sp := P.SSAPkg("lib/mp")
 	nAcc := 0
 	for _, fn := range PkgFuncs(sp) {
@@ -679,6 +701,7 @@ func c15Next(c *Ctx) {
 			continue
 		}
 		var ls *Locksets
+		perMu := map[*types.Var]*Locksets{}
 		EachInstr(fn, func(in ssa.Instruction) {
 			var what string
 			write := false
@@ -709,7 +732,25 @@ func c15Next(c *Ctx) {
 			}
 			st := ls.Before[in]
 			ok := st.W || (!write && st.R)
-			c.Check(ok, "O15.5", fmt.Sprintf("%s:%s-under-mx", fk(fn), strings.ReplaceAll(what, " ", "-")), in.Pos(), fmt.Sprintf("%s must happen with mx held (write lock for writes): R=%v W=%v", what, st.R, st.W))
+			c.Check(ok, "O15.5", fmt.Sprintf("%s:%s-under-mx", fk(fn), strings.ReplaceAll(what, " ", "-")), in.Pos(), fmt.Sprintf("%s must happen with a mutex of the iterator held (write lock for writes): R=%v W=%v", what, st.R, st.W))
+			obj := "gs"
+			if strings.HasPrefix(what, "use of rnd") {
+				obj = "rnd"
+			}
+			accOf[obj]++
+			for _, mf := range muFields {
+				mf := mf
+				if perMu[mf] == nil {
+					perMu[mf] = NewLocksets(fn, func(v ssa.Value) bool { return muField(v) == mf })
+				}
+				ms := perMu[mf].Before[in]
+				if ms.W || (!write && ms.R) {
+					if guardsOf[obj] == nil {
+						guardsOf[obj] = map[*types.Var]int{}
+					}
+					guardsOf[obj][mf]++
+				}
+			}
 		})
 		if ls != nil {
 			okExit := true
@@ -722,6 +763,15 @@ func c15Next(c *Ctx) {
 		}
 	}
 	c.Floor("O15.5", "accesses to NextIterator.gs / rnd", nAcc, 3)
+	for _, obj := range []string{"gs", "rnd"} {
+		common := ""
+		for mf, k := range guardsOf[obj] {
+			if k == accOf[obj] {
+				common = mf.Name()
+			}
+		}
+		c.Check(accOf[obj] == 0 || common != "", "O15.5", "lib/mp.NextIterator."+obj+":one-mutex-guards-every-access", next.Pos(), fmt.Sprintf("%d accesses to %s; a single mutex held at all of them: %q", accOf[obj], obj, common))
+	}
 	// check-then-insert atomic: no unlock between the lookup and the insert
 	var lk *ssa.Lookup
 	var ins *ssa.MapUpdate
